@@ -45,7 +45,7 @@ fn transforms() -> Vec<(&'static str, Matrix4<f32>)> {
 }
 
 /// Dual-number evaluation of a program (None near a non-differentiable locus)
-fn eval_dual(p: &Prog, vars: &[D64]) -> Option<D64> {
+pub fn eval_dual(p: &Prog, vars: &[D64]) -> Option<D64> {
     let mut v: Vec<Option<D64>> = Vec::with_capacity(p.nodes.len());
     for op in &p.nodes {
         let x = match *op {
